@@ -367,7 +367,7 @@ func enumerated() []Case {
 			for _, breaker := range []bool{false, true} {
 				for _, conc := range []bool{false, true} {
 					h := mix(lab.Seed()*1000003 + uint64(i))
-					c := Case{Cfg: Cfg{Strategy: st, FaultyFirst: h&1 == 1, Limiter: h&2 != 0, Passive: h&4 != 0, Active: h&8 != 0, Plugins: h&16 != 0}}
+					c := Case{Cfg: Cfg{Strategy: st, FaultyFirst: h&1 == 1, Limiter: h&2 != 0, Passive: h&4 != 0, PassiveTimeoutOmitted: h&4 == 0 && (h>>33)&1 == 1, Active: h&8 != 0, Plugins: h&16 != 0}}
 					if st == "" {
 						c.Cfg.Strategy = Strategies[(uint64(i)+lab.Seed())%5]
 					}
@@ -430,10 +430,12 @@ func TestC03Sequences(t *testing.T) {
 	t.Parallel()
 	const name = "fault-sequences-sampled"
 	k := lab.Scale(3, 5)
-	sub := lab.Sub(name, fmt.Sprintf("sampled: rapid generator (seeded per case from VERIF_SEED, shard and case index; cases of a shard are drawn first and then executed by %d parallel labs): strategy x breaker off/failure_threshold 2-6 (interval_seconds 1 in 3 of 4 draws, else 60) x limiter x passive x active x plugin chain x backend order x handler timeout 1-3 s x backend_read timeout 1-3 s x server idle timeout 1 or 5 s, "+
-		"fault sequence of length 1..%d (weighted towards long) over the 9-fault alphabet, each step a sequential burst of 4, a sequential burst of 1-3 played by both backends (exactly that many faulted requests: fewer than a threshold) or a concurrent burst of 2-8 requests (1 in 4 played by both backends) "+
-		"of one request kind drawn from {get, post-cl, post-chunked, head, upgrade-websocket, upgrade-h2c, expect-continue} and one framing of the faulty response drawn from {Content-Length, chunked, close-delimited}; after each fault step, in 2 of 5 draws, a quiet period of 1.1-2.5 s of real time in which nothing is sent "+
-		"(longer than the breaker interval/timeout, unhealthy window, refill period and idle timeouts of 1 s; from 2.1 s on longer than the active-check interval of 2 s); ", workers(), k)+oracleText+
+	sub := lab.Sub(name, fmt.Sprintf("sampled: rapid generator (seeded per case from VERIF_SEED, shard and case index; cases of a shard are drawn first and then executed by %d parallel labs): strategy x breaker off/failure_threshold 2-6 (interval_seconds 1 in 3 of 4 draws, else 60) x limiter "+
+		"x passive checks {on (unhealthy_timeout 1 s, unhealthy_threshold 2, 3 or 50) in half of the draws, off with unhealthy_timeout 1 written, off with unhealthy_timeout left out} x active checks x plugin chain x backend order x handler timeout 1-3 s x backend_read timeout 1-3 s x server idle timeout 1 or 5 s, "+
+		"fault sequence of length 1..%d (weighted towards long) over the 9-fault alphabet, each step a sequential burst of 4, a sequential burst of 1-3 played by both backends (exactly that many faulted requests: fewer than a threshold) or a concurrent burst of 2-8 requests (1 in 4 played by both backends; in 3 of 8 draws 4-24 requests that both backends answer well are part of the same, then synchronised, burst) "+
+		"of one request kind drawn from {get, post-cl, post-chunked, head, upgrade-websocket, upgrade-h2c, expect-continue} and one framing of the faulty response drawn from {Content-Length, chunked, close-delimited}; in labs with active checks a refuse / hang-headers / 5xx / garbage step is in 1 of 3 draws also played on the health endpoint and held for 2.3 s (longer than the active-check interval); "+
+		"after each fault step, in 1 of 3 draws, a synchronised concurrent burst of 8-32 requests that both backends answer well (in half of those the pair fault step + such burst is played once or twice more), and in 2 of 5 draws a quiet period of 1.1-2.5 s of real time in which nothing is sent "+
+		"(longer than the breaker interval/timeout, unhealthy window, refill period and idle timeouts of 1 s; from 2.1 s on longer than the active-check interval of 2 s); neither counts towards the length; in half of the draws the recovery phase is played with the roles swapped first: "+swapText+"; ", workers(), k)+oracleText+
 		"; non-trivial = >= 2 distinct fault kinds, or >= 1 client-abort fault with the breaker on, or a quiet period after a fault")
 	sub.NontrivialFloor(0.50)
 	sub.Floor("fault-delivered", 0.80)
@@ -475,7 +477,7 @@ func kindCases() []Case {
 				}
 				for _, hb := range pairs {
 					h := mix(lab.Seed()*1000117 + uint64(i))
-					c := Case{Cfg: Cfg{Strategy: Strategies[(uint64(i)+lab.Seed())%5], FaultyFirst: h&1 == 1, Limiter: h&2 != 0, Passive: h&4 != 0, Active: h&8 != 0, Plugins: h&16 != 0, Handler: hb[0], BackendRead: hb[1]}}
+					c := Case{Cfg: Cfg{Strategy: Strategies[(uint64(i)+lab.Seed())%5], FaultyFirst: h&1 == 1, Limiter: h&2 != 0, Passive: h&4 != 0, PassiveTimeoutOmitted: h&4 == 0 && (h>>33)&1 == 1, Active: h&8 != 0, Plugins: h&16 != 0, Handler: hb[0], BackendRead: hb[1]}}
 					if h&32 != 0 {
 						c.Cfg.Breaker = 2 + int((h>>6)%3)
 						c.Cfg.BreakerInterval = []int{1, 60}[(h>>20)&1]
@@ -580,7 +582,7 @@ func quietCases() []Case {
 				}
 				for _, long := range classes {
 					h := mix(lab.Seed()*1000253 + uint64(i))
-					c := Case{Cfg: Cfg{Strategy: Strategies[(uint64(i)+lab.Seed())%5], FaultyFirst: h&1 == 1, Limiter: h&2 != 0, Passive: h&4 != 0, Active: h&8 != 0 || long, Plugins: h&16 != 0,
+					c := Case{Cfg: Cfg{Strategy: Strategies[(uint64(i)+lab.Seed())%5], FaultyFirst: h&1 == 1, Limiter: h&2 != 0, Passive: h&4 != 0, PassiveTimeoutOmitted: h&4 == 0 && (h>>33)&1 == 1, Active: h&8 != 0 || long, Plugins: h&16 != 0,
 						Breaker: cnt.minThr + int((h>>5)%uint64(cnt.maxThr-cnt.minThr+1)), BreakerInterval: 1, Idle: []int{1, 5}[(h>>21)&1],
 						Handler: 1 + int((h>>12)%3), BackendRead: 1 + int((h>>16)%3)}}
 					pause := Step{Fault: Pause, PauseMs: 1100 + int((h>>24)%500)}
@@ -637,7 +639,7 @@ func midBodyCases() []Case {
 					for _, rel := range rels {
 						h := mix(lab.Seed()*1000357 + uint64(i))
 						hb := TimeoutPairs[rel][(h>>40)%3]
-						c := Case{Cfg: Cfg{Strategy: Strategies[(uint64(i)+lab.Seed())%5], FaultyFirst: h&1 == 1, Limiter: h&2 != 0, Passive: h&4 != 0, Active: h&8 != 0, Plugins: plugins,
+						c := Case{Cfg: Cfg{Strategy: Strategies[(uint64(i)+lab.Seed())%5], FaultyFirst: h&1 == 1, Limiter: h&2 != 0, Passive: h&4 != 0, PassiveTimeoutOmitted: h&4 == 0 && (h>>33)&1 == 1, Active: h&8 != 0, Plugins: plugins,
 							Idle: []int{1, 5}[(h>>21)&1], Handler: hb[0], BackendRead: hb[1]}}
 						if breaker {
 							c.Cfg.Breaker = 2 + int((h>>5)%3)
@@ -916,6 +918,9 @@ func assumptions() {
 	lab.Assume("concurrent schedules are sampled by real parallelism, not enumerated; faults below TCP and TLS faults are not generated")
 	lab.Assume("quiet periods are real time (time.Sleep, measured from the end of the previous step's last client call; nothing is sent meanwhile, active probes and the /v1/health canary on the admin port go on); the configured intervals they are compared with are whole seconds at the minimum internal/config accepts (1 s; active-check interval 2 s)")
 	lab.Assume("manner of ending: the client-side judgement uses net/http's response parser (http.ReadResponse: Content-Length, chunked incl. trailer section, close-delimited) and compress/gzip; the complete bodies it compares with are the scripts of the harness's own backends; every scripted body is text/plain so that the gzip plugin of the generated chain (min_size 256) applies to it")
+	lab.Assume("roles swapped for recovery: 'the backend that misbehaved has recovered' = from the end of the last fault step on the FAULTY raw backend answers 200 to every request and to every GET /healthz; 'the other backend goes away' = the GOOD raw backend resets every new connection on accept and every request or probe arriving on a pooled connection; which backend served a request is read from the response body; the healthy flag of /v1/backends is the proxy's own statement that a backend is ejected")
+	lab.Assume("health-endpoint faults: active probes are plain GET /healthz requests of the proxy without the harness's case header, so they are answered by the raw backend's fallback script; a step played 'also on the health endpoint' swaps that fallback for the fault (refuse: the listener resets on accept) and lasts 2.3 s of real time, the active-check interval being 2 s; whether a probe failed is read from the helios log (class probe-failure-of-FAULTY-logged)")
+	lab.Assume("synchronised bursts (well-behaved burst after a fault, mixed burst, volleys): every client opens its connection first and waits at a gate inside the harness process; that the requests are then processed by the proxy at the same instant is likely, not guaranteed (real parallelism on the machine's cores, not enumerated schedules)")
 	lab.Assume("request kinds: the raw client sends syntactically valid HTTP/1.1 requests only (fixed Sec-WebSocket-Key, 2000-byte bodies); the well-behaved backend answers upgrade requests with 101 or 200, and Expect: 100-continue with 100 Continue before it reads the body (a backend that hangs, resets or sends garbage sends no interim response); after a 101 the client closes the tunnel, nothing is played inside it")
 }
 
